@@ -145,6 +145,7 @@ func CheckC19(c *Ctx) {
 		run.Floor("record_index_sites", 1)
 	}
 	c.constructorDiscipline("reader/construction", "asset", "helper", "backtest")
+	c.closeHelpers()
 	if ok := panicSourcesSelfTest(); !ok {
 		run.Break("the panic-source detector no longer finds its built-in example")
 	} else {
@@ -1464,6 +1465,29 @@ func (c *Ctx) factoryPurity(rel, fn, rule string) {
 			}
 			d, has := defs[info.ObjectOf(id)]
 			if !has {
+				// the first result of a call assigned together with its error: x, err := builder(config)
+				obj := info.ObjectOf(id)
+				var only ast.Expr
+				count := 0
+				ast.Inspect(fi.Decl.Body, func(m ast.Node) bool {
+					as, ok := m.(*ast.AssignStmt)
+					if !ok {
+						return true
+					}
+					for li, l := range as.Lhs {
+						if lid, ok := l.(*ast.Ident); ok && info.ObjectOf(lid) == obj {
+							count++
+							if li == 0 && len(as.Rhs) == 1 && len(as.Lhs) > 1 {
+								only = as.Rhs[0]
+							}
+						}
+					}
+					return true
+				})
+				if count == 1 && only != nil {
+					e = ast.Unparen(only)
+					continue
+				}
 				break
 			}
 			e = ast.Unparen(d)
@@ -1650,4 +1674,80 @@ func (c *Ctx) constructorDiscipline(rule string, rels ...string) {
 	}
 	run.Count("constructed_types_with_defaults", nTypes)
 	run.Floor("constructed_types_with_defaults", 3)
+}
+
+// closeHelpers: the helpers the readers rely on to release a body or a file really do close what
+// they are given, on every path, and do nothing with it before that: a read on the way
+// (draining "so that the connection can be reused") blocks for as long as the peer keeps the
+// connection open, and then the stream is never closed and the error never returned.
+func (c *Ctx) closeHelpers() {
+	run := c.Run
+	n := 0
+	for _, name := range []string{"CloseAndLogError", "CloseAndLogErrorWithLogger"} {
+		fi := c.P.Func("helper", name)
+		if fi == nil {
+			run.Break("anchor missing: helper." + name)
+			continue
+		}
+		n++
+		info := fi.Pkg.TypesInfo
+		site := "helper." + name
+		var closer types.Object
+		if fi.Decl.Type.Params != nil && len(fi.Decl.Type.Params.List) > 0 && len(fi.Decl.Type.Params.List[0].Names) > 0 {
+			closer = info.ObjectOf(fi.Decl.Type.Params.List[0].Names[0])
+		}
+		// aliases of the closer: r, ok := closer.(io.Reader)
+		alias := map[types.Object]bool{closer: true}
+		ast.Inspect(fi.Decl.Body, func(nd ast.Node) bool {
+			as, ok := nd.(*ast.AssignStmt)
+			if !ok || len(as.Rhs) != 1 {
+				return true
+			}
+			if ta, ok := ast.Unparen(as.Rhs[0]).(*ast.TypeAssertExpr); ok {
+				if id, ok := ast.Unparen(ta.X).(*ast.Ident); ok && alias[info.ObjectOf(id)] {
+					if l, ok := as.Lhs[0].(*ast.Ident); ok {
+						alias[info.ObjectOf(l)] = true
+					}
+				}
+			}
+			return true
+		})
+		closes, forwards := false, false
+		bad := ""
+		var badPos token.Pos
+		ast.Inspect(fi.Decl.Body, func(nd ast.Node) bool {
+			call, ok := nd.(*ast.CallExpr)
+			if !ok {
+				return true
+			}
+			if sel, ok := call.Fun.(*ast.SelectorExpr); ok {
+				if id, ok := ast.Unparen(sel.X).(*ast.Ident); ok && alias[info.ObjectOf(id)] {
+					if sel.Sel.Name == "Close" {
+						closes = true
+					} else {
+						bad, badPos = exprString(call.Fun), call.Pos()
+					}
+					return true
+				}
+			}
+			for i, a := range call.Args {
+				if id, ok := ast.Unparen(a).(*ast.Ident); ok && alias[info.ObjectOf(id)] {
+					if fn := callee(info, call); fn != nil && i == 0 && (fn.Name() == "CloseAndLogError" || fn.Name() == "CloseAndLogErrorWithLogger") {
+						forwards = true
+					} else {
+						bad, badPos = exprString(call.Fun)+"(…"+id.Name+"…)", call.Pos()
+					}
+				}
+			}
+			return true
+		})
+		good := (closes || forwards) && bad == ""
+		run.Oblige(good)
+		if bad != "" {
+			c.violate("reader/close-helper", site, "uses the closer: "+short(bad, 60), badPos, site+" does "+bad+" with what it is asked to close: reading a response body to its end blocks for as long as the peer keeps the connection open, so the reader's stream is never closed and a non-success status never returned")
+		} else if !good {
+			c.violate("reader/close-helper", site, "no Close", fi.Decl.Pos(), site+" no longer closes what it is given")
+		}
+	}
+	run.Count("close_helpers", n)
 }
